@@ -11,7 +11,8 @@ from . import flow, paths
 from .facts import callee_def
 
 GOOD_VARIANTS = ("Some", "Ok")
-TESTS_TRUE = ("core::option::Option::<T>::is_some", "core::result::Result::<T, E>::is_ok")
+TESTS_TRUE = ("core::option::Option::<T>::is_some", "core::result::Result::<T, E>::is_ok", "core::option::Option::<T>::is_some_and",
+              "core::result::Result::<T, E>::is_ok_and")
 TESTS_FALSE = ("core::option::Option::<T>::is_none", "core::result::Result::<T, E>::is_err")
 # calls through which the receiver of unwrap() is still the tracked place's value
 VIEW_CALLS = ("core::clone::Clone::clone", "core::option::Option::<T>::as_ref", "core::option::Option::<T>::as_deref", "core::result::Result::<T, E>::as_ref",
@@ -157,22 +158,47 @@ def _edge_sets(body, s, key):
     return out
 
 
+def _stored_bool_edges(body, s):
+    """switch on a boolean that was stored by constant assignments (`matches!`, `a && b`): {label: [blocks that assign the value this edge tests]}"""
+    from . import guards
+    t = body.blocks[s]["term"]
+    d = t["discr"]
+    if "p" not in d or d["p"]["proj"]:
+        return {}
+    l = d["p"]["l"]
+    if l >= len(body.locals) or body.locals[l] != "bool":
+        return {}
+    for _ in range(4):
+        df = flow.single_def(body, l)
+        if df and df["kind"] == "assign" and df["rv"]["k"] == "use" and "p" in df["rv"]["ops"][0] and not df["rv"]["ops"][0]["p"]["proj"]:
+            l = df["rv"]["ops"][0]["p"]["l"]
+        else:
+            break
+    assigns = guards._const_bool_assigns(body, l)
+    if not assigns:
+        return {}
+    vals = paths.bool_values(t, True)
+    out = {}
+    for lab, _ in body.succ_edges(s):
+        v = vals.get(lab)
+        if v is None:
+            continue
+        out[lab] = [bi for bi, val in assigns if val == v]
+    return out
+
+
 def definitely_good(body, key, at_block, entry=False):
     """True when P is Some/Ok on every path reaching the terminator of at_block (entry: the state assumed on entering the body)"""
-    live = list(body.live_blocks())
-    IN = {bi: None for bi in live}       # None = not yet reached (top), True/False
-    IN[0] = entry
-    edge_cache = {}
-    work = [0]
-    OUT_EDGE = {}
-    it = 0
-    while work and it < 20000:
-        it += 1
-        bi = work.pop()
-        st_in = IN[bi]
-        if st_in is None:
-            continue
-        cur = st_in
+    order = [b for b in _rpo(body) if not body.blocks[b]["cleanup"]]
+    preds = body.preds()
+    IN, OUT = {}, {}
+    static_edges, stored = {}, {}
+    for bi in order:
+        t = body.blocks[bi]["term"]
+        static_edges[bi] = _edge_sets(body, bi, key) if t["k"] == "switch" else set()
+        stored[bi] = _stored_bool_edges(body, bi) if t["k"] == "switch" and not static_edges[bi] else {}
+
+    def transfer(bi, cur, upto_term=True):
         for st in body.blocks[bi]["stmts"]:
             e = _stmt_effect(body, st, key)
             if e == "set":
@@ -180,29 +206,61 @@ def definitely_good(body, key, at_block, entry=False):
             elif e == "kill":
                 cur = False
         t = body.blocks[bi]["term"]
-        if t["k"] == "call" and _call_kills(body, bi, t, key):
+        if upto_term and t["k"] == "call" and _call_kills(body, bi, t, key):
             cur = False
-        if t["k"] == "drop":
-            pass
-        if bi not in edge_cache:
-            edge_cache[bi] = _edge_sets(body, bi, key) if t["k"] == "switch" else set()
-        for lab, tb in body.succ_edges(bi):
-            if tb not in IN:
+        return cur
+
+    def edge_value(p, lab):
+        if OUT.get(p) is None:
+            return None
+        if lab in static_edges[p]:
+            return True
+        blocks = stored[p].get(lab)
+        if blocks:
+            vs = [OUT.get(ab) for ab in blocks]
+            if all(v is True for v in vs):
+                return True
+        return OUT[p]
+
+    for _ in range(60):
+        changed = False
+        for bi in order:
+            if bi == 0:
+                new_in = entry
+            else:
+                vals = [edge_value(p, lab) for p, lab in preds.get(bi, [])]
+                vals = [v for v in vals if v is not None]
+                new_in = None if not vals else all(vals)
+            if new_in is None:
                 continue
-            v = True if lab in edge_cache[bi] else cur
-            old = IN[tb]
-            new = v if old is None else (old and v)
-            if new != old:
-                IN[tb] = new
-                work.append(tb)
+            new_out = transfer(bi, new_in)
+            if IN.get(bi) != new_in or OUT.get(bi) != new_out:
+                IN[bi], OUT[bi] = new_in, new_out
+                changed = True
+        if not changed:
+            break
     if IN.get(at_block) is None:
         return False
-    # state before the terminator of at_block
-    cur = IN[at_block]
-    for st in body.blocks[at_block]["stmts"]:
-        e = _stmt_effect(body, st, key)
-        if e == "set":
-            cur = True
-        elif e == "kill":
-            cur = False
-    return bool(cur)
+    return bool(transfer(at_block, IN[at_block], upto_term=False))
+
+
+def _rpo(body):
+    seen = set()
+    order = []
+    stack = [(0, iter([tb for _, tb in body.succ_edges(0)]))]
+    seen.add(0)
+    while stack:
+        x, it = stack[-1]
+        adv = False
+        for tb in it:
+            if tb in seen or body.blocks[tb]["cleanup"]:
+                continue
+            seen.add(tb)
+            stack.append((tb, iter([t2 for _, t2 in body.succ_edges(tb)])))
+            adv = True
+            break
+        if not adv:
+            order.append(x)
+            stack.pop()
+    order.reverse()
+    return order
